@@ -158,6 +158,8 @@ type Dst struct {
 	Transient bool
 	Failed  bool
 	After   int // calls that arrived after the failure
+	// Err, when set, is returned instead of ErrInjected
+	Err error
 }
 
 func NewDst() *Dst { return &Dst{FailAt: -1} }
@@ -174,6 +176,9 @@ func (d *Dst) Write(p []byte) (int, error) {
 			n = len(p)
 		}
 		d.Calls = append(d.Calls, append([]byte{}, p[:n]...))
+		if d.Err != nil {
+			return n, d.Err
+		}
 		return n, ErrInjected
 	}
 	d.Calls = append(d.Calls, append([]byte{}, p...))
